@@ -72,7 +72,8 @@ def construct(w, S, rng):
     from onsager import crystal
     sw = worlds.supercell_world(w, S)
     A = worlds.lattice_of(w, rng, 1.0, True)
-    jitter = rng.choice((0.0, 0.0, 1e-12, 1e-10))
+    # 2e-6 is a noisy (e.g. relaxed-structure) description: it is given with a matching threshold of 2e-5
+    jitter = rng.choice((0.0, 0.0, 1e-12, 1e-10, 2e-6))
     basis, ibasis = [], []
     for sp in sw["basis"]:
         ilst = [list(u) for u in sp]
@@ -85,7 +86,8 @@ def construct(w, S, rng):
     sw["basis"] = ibasis          # the description exactly as handed over (atom order included)
     chem = ["S%d" % c for c in range(len(basis))]
     try:
-        crys = crystal.Crystal(np.dot(A, np.array(S, dtype=float)), basis, chemistry=chem)
+        kw = {"threshold": 2e-5} if jitter > 1e-8 else {}
+        crys = crystal.Crystal(np.dot(A, np.array(S, dtype=float)), basis, chemistry=chem, **kw)
     except Exception as ex:      # noqa: BLE001 -- the exception class is the observation
         fr = [f.name for f in traceback.extract_tb(ex.__traceback__) if "onsager" in f.filename]
         return sw, None, type(ex).__name__, fr[-1] if fr else "?", str(ex), jitter
@@ -158,7 +160,7 @@ def do_chunk(args):
                 "cls": description_class(sw, n * len(pure_translations(w["basis"], w["D"])))}
         if crys is not None:
             try:
-                info["ow"] = worlds.observe(crys, 1.0, Dhint=w["D"])
+                info["ow"] = worlds.observe(crys, 1.0, Dhint=w["D"], postol=4 * jitter if jitter > 1e-8 else 0.0)
                 run_.update({"rh": bool(np.linalg.det(crys.lattice) > 0), "nG": len(crys.G)})
             except worlds.ProjectionError as ex:
                 info["projection"] = str(ex)
